@@ -67,7 +67,8 @@ class Peer:
         body = content or b""
         raw = serialize_request(method, path, params_b, headers_b, body)
         msg = (path, params_b, headers_b, body)
-        if method == b"GET":
+        is_submit = method == self.desc["verbs"][1] and path.startswith(self.desc["submit_uri"].encode())
+        if not is_submit:
             rec = refcodec.ref_recover(self.desc["get"], msg)
             blob = rec["metadata"]
             plain = PKCS1_v1_5.new(KEY).decrypt(blob, None)
@@ -133,7 +134,9 @@ N = 40 if TIER == "quick" else 1500
 for sidx in range(N):
     prof = cfggen.gen_profile(rng)
     # printable placements only: data stored in a header / parameter must survive the wire (no CR / LF / NUL in header values)
-    blk, desc = cfggen.config_block(rng, profile=prof, domains=rng.choice(["c2.example,/api/v1", "a.example,/load,b.example,/fetch"]))
+    verbs = rng.choice([(b"GET", b"POST"), (b"GET", b"POST"), (b"GET", b"GET"), (b"POST", b"POST"), (b"POST", b"GET")])
+    blk, desc = cfggen.config_block(rng, profile=prof, domains=rng.choice(["c2.example,/api/v1", "a.example,/load,b.example,/fetch"]),
+                                    verbs=verbs, submit=rng.choice(["/submit.php", "/s"]))
     bc = BeaconConfig(blk)
     peer = Peer(desc)
     cl = HttpBeaconClient()
